@@ -44,7 +44,7 @@ def decode_harness(name, prop, cmd, var, desc, tiers=("quick", "thorough"), time
     h.add('    _ => assert!(false, "well-formed request must decode to the %s variant"),' % variant)
     h.add("};")
     h.fsa = fsa_for(len(msg))
-    h.unwind = max(h.maxlen, 12) + 4 + extra_unwind
+    h.unwind = max(h.maxlen, 32) + 4 + extra_unwind
     h.bounds = {"message_bytes": len(msg), "unwind": h.unwind, "command": "0x%02x" % cmd, "entry": via,
                 "symbolic": "contents of every bytes/text member, integer arguments within head class %s, booleans" % var.intclass}
     return h
@@ -70,6 +70,6 @@ def nested_harness(name, prop, schema, var, desc, tiers=("quick", "thorough"), t
     h.add('    _ => assert!(false, "well-formed %s must decode"),' % schema.name)
     h.add("};")
     h.fsa = fsa_for(len(msg))
-    h.unwind = max(h.maxlen, 12) + 4
+    h.unwind = max(h.maxlen, 32) + 4
     h.bounds = {"message_bytes": len(msg), "unwind": h.unwind, "type": schema.rust}
     return h
